@@ -180,7 +180,11 @@ def build_form(case, with_heur=True):
         except Exception as e:  # noqa
             # the getter itself cannot configure a formulation for this MIRP (e.g. no travel arc of positive time: min() of nothing);
             # there is no object to speak about (since fix ff3f4a7 nothing half-built is kept either)
-            if isinstance(e, ValueError) and ("min()" in str(e) or "max()" in str(e)):
+            # decided from the input, not from the exception's wording: the sequence getter sizes its sequences by the shortest positive
+            # travel time, the path getter needs an arc cost and a port frequency for its high-cost estimate
+            arcs_ = list(m.vrptw.arcs.values())
+            no_pos = not any(a.get_travel_time() > 0 for a in arcs_)
+            if (form == "seq" and no_pos) or (form == "path" and (not arcs_ or not m.port_frequency)):
                 raise core.SkipCase("mirp-getter-raised:no-travel-arc")
             # any other exception out of a getter on a well-formed MIRP is not expected (reported as a broken correspondence)
             raise RuntimeError("the MIRP getter raised: " + repr(e)[:160])
